@@ -49,6 +49,18 @@ EX = "onnx_ir._convenience._extractor"
 IU = "onnx_ir.analysis._implicit_usage"
 
 
+def _graph_read(f, x):
+    """The `<e>.graph` read an expression denotes: the attribute itself, or a local bound once to one (`owner = v.graph`)."""
+    if isinstance(x, ast.Attribute) and x.attr == "graph":
+        return x
+    if isinstance(x, ast.Name) and x.id not in f.params:
+        binds = [n for n in own_nodes(f.node) if (isinstance(n, ast.Assign) and any(isinstance(t, ast.Name) and t.id == x.id for t in n.targets))
+                 or (isinstance(n, (ast.AnnAssign, ast.AugAssign, ast.NamedExpr, ast.For)) and isinstance(getattr(n, "target", None), ast.Name) and n.target.id == x.id)]
+        if len(binds) == 1 and isinstance(binds[0], ast.Assign) and isinstance(binds[0].value, ast.Attribute) and binds[0].value.attr == "graph":
+            return binds[0].value
+    return None
+
+
 def _anchor_params(ctx, f) -> set[str]:
     """Parameters of f compared by identity with <Value-typed>.graph."""
     out = set()
@@ -56,7 +68,8 @@ def _anchor_params(ctx, f) -> set[str]:
         if isinstance(n, ast.Compare) and len(n.ops) == 1 and isinstance(n.ops[0], (ast.Is, ast.IsNot)):
             a, b = n.left, n.comparators[0]
             for x, y in ((a, b), (b, a)):
-                if isinstance(x, ast.Attribute) and x.attr == "graph" and isinstance(y, ast.Name) and y.id in f.params \
+                x = _graph_read(f, x)
+                if x is not None and isinstance(y, ast.Name) and y.id in f.params \
                         and (not ctx.typer.recv_classes(f, x.value) or any(k.name == "Value" for k in ctx.typer.recv_classes(f, x.value))):
                     out.add(y.id)
     return out
@@ -332,7 +345,7 @@ def run(ctx):
             t = iff.test
             if isinstance(t, ast.Compare) and len(t.ops) == 1 and isinstance(t.ops[0], ast.Is):
                 sides = [t.left, t.comparators[0]]
-                if any(isinstance(x, ast.Name) and x.id == g for x in sides) and any(isinstance(x, ast.Attribute) and x.attr == "graph" for x in sides) \
+                if any(isinstance(x, ast.Name) and x.id == g for x in sides) and any(_graph_read(c, x) is not None for x in sides) \
                         and any(isinstance(b, ast.Break) for b in iff.body):
                     ok = True
     ctx.check("R2", "a captured value is charged to every enclosing graph up to (not including) its owner", ok, c, c.node,
